@@ -188,7 +188,9 @@ func VerifC01Trim(spec string) (res string) {
 }
 
 func verifC01Densify(ws *xlsxWorksheet) string {
-	ws.checkSheet()
+	if err := ws.checkSheet(); err != nil {
+		return "ERR"
+	}
 	if err := ws.checkRow(); err != nil {
 		return "ERR"
 	}
